@@ -27,6 +27,7 @@ type paItem struct {
 	DGs     map[int][]byte
 	CardSec []byte
 	ML      []byte // master list (then SOD is nil)
+	MLCerts [][]byte // the certificates inside the SIGNED certList of the master list
 	Trust   [][]byte
 	KS      string
 }
@@ -36,6 +37,7 @@ type paReal struct {
 	err    string
 	panic  string
 	anchor []byte // CertChain[1] of the SOD verification
+	poolExtra string // master list: a certificate in the returned pool that is not in the signed list
 }
 
 // paRun runs the REAL passive authentication (or master-list import) on the item.
@@ -53,6 +55,19 @@ func paRun(it paItem) (res paReal) {
 			return
 		}
 		res.accept = pool != nil
+		if pool != nil && it.MLCerts != nil {
+			for _, pc := range pool.All() {
+				found := false
+				for _, want := range it.MLCerts {
+					if bytes.Equal(pc.Raw, want) {
+						found = true
+					}
+				}
+				if !found {
+					res.poolExtra = core.Hex(pc.Raw)
+				}
+			}
+		}
 		return
 	}
 	doc := &document.Document{}
@@ -312,7 +327,7 @@ func scenarioItems(seed int64, ks pki.KeySpec) []paItem {
 	}
 	var items []paItem
 	for _, s := range scs {
-		items = append(items, paItem{Name: s.Name, Class: s.Class, Known: s.KnownDeviation, Note: s.Note, SOD: s.SOD, DGs: s.DGs, CardSec: s.CardSec, ML: s.MasterList, Trust: s.Trust, KS: ks.String()})
+		items = append(items, paItem{Name: s.Name, Class: s.Class, Known: s.KnownDeviation, Note: s.Note, SOD: s.SOD, DGs: s.DGs, CardSec: s.CardSec, ML: s.MasterList, MLCerts: s.MLExpectCerts, Trust: s.Trust, KS: ks.String()})
 	}
 	return items
 }
@@ -417,6 +432,11 @@ func C01(c *core.Ctx) {
 		if v.real.panic != "" {
 			// crash on attacker-supplied input: C12's subject; for C01 it is "not accepted"
 			continue
+		}
+		if v.real.poolExtra != "" {
+			// the master-list clause: only certificates covered by the verified signature enter a trust store
+			c.Violation("C01:master-list-pool-contains-unsigned-certificate", fmt.Sprintf("[%s] %s: the pool built from the master list contains a certificate that is not in its signed certList", it.KS, it.Name),
+				map[string]any{"name": it.Name, "keyspec": it.KS, "master_list": core.Hex(it.ML), "certificate": v.real.poolExtra})
 		}
 		if v.specVerdict == "unsound" && it.Class == "probe" {
 			probesUnsound++ // verdict not fixed by the standard / property (e.g. the ECDSA curve fall-back): informational
